@@ -101,12 +101,230 @@ theorem reach_cast {a b a' b' : Nat} (ha : a < G.n) (hb : b < G.n) (ha' : a' < G
 /-! ### from the cut graph to a division -/
 
 /-- The division obtained by cutting the border edges. -/
-def canon (h w : Nat) (G : Graph) (bd : Nat → Bool) : Division h w where
+def canon (GL : GridLike h w G) (bd : Nat → Bool) : Division h w where
   same p q := OnBoard h w p ∧ OnBoard h w q ∧
     ∃ (hu : p.1 * w + p.2 < G.n) (hv : q.1 * w + q.2 < G.n), (cutGraph G bd).Reachable ⟨_, hu⟩ ⟨_, hv⟩
-  refl p hp := ⟨hp, hp, ?_⟩
-  symm p q := fun ⟨hp, hq, hu, hv, r⟩ => ⟨hq, hp, hv, hu, r.symm⟩
-  trans p q r := fun ⟨hp, _, hu, _, r1⟩ ⟨_, hr, _, hw, r2⟩ => ⟨hp, hr, hu, hw, r1.trans r2⟩
+  refl _ hp := ⟨hp, hp, idx_lt GL hp, idx_lt GL hp, SimpleGraph.Reachable.refl _⟩
+  symm _ _ := fun ⟨hp, hq, hu, hv, r⟩ => ⟨hq, hp, hv, hu, r.symm⟩
+  trans _ _ _ := fun ⟨hp, _, hu, _, r1⟩ ⟨_, hr, _, hw, r2⟩ => ⟨hp, hr, hu, hw, r1.trans r2⟩
+
+theorem canon_same_fin (GL : GridLike h w G) (u v : Fin G.n) :
+    (canon GL bd).same (cellOf w u.1) (cellOf w v.1) ↔ (cutGraph G bd).Reachable u v := by
+  constructor
+  · rintro ⟨_, _, hu, hv, r⟩
+    exact (reach_cast hu hv u.2 v.2 (idx_cellOf w u.1) (idx_cellOf w v.1)).1 r
+  · intro r
+    refine ⟨onBoard_fin GL u, onBoard_fin GL v, by rw [idx_cellOf]; exact u.2, by rw [idx_cellOf]; exact v.2, ?_⟩
+    exact (reach_cast _ _ u.2 v.2 (idx_cellOf w u.1) (idx_cellOf w v.1)).2 r
+
+theorem canon_same_idx (GL : GridLike h w G) {p q : Nat × Nat} (hp : OnBoard h w p) (hq : OnBoard h w q) :
+    (canon GL bd).same p q ↔ (cutGraph G bd).Reachable ⟨_, idx_lt GL hp⟩ ⟨_, idx_lt GL hq⟩ :=
+  ⟨fun ⟨_, _, _, _, r⟩ => r, fun r => ⟨hp, hq, _, _, r⟩⟩
+
+/-- The block of `p` has as many cells as the component of its vertex in the cut graph. -/
+theorem canon_size (GL : GridLike h w G) {p : Nat × Nat} (hp : OnBoard h w p) :
+    (canon GL bd).size p = Set.ncard {x : Fin G.n | (cutGraph G bd).Reachable ⟨_, idx_lt GL hp⟩ x} := by
+  unfold Division.size
+  symm
+  apply Set.ncard_congr (fun x _ => cellOf w x.1)
+  · intro x hx
+    refine ⟨onBoard_fin GL x, hp, onBoard_fin GL x, idx_lt GL hp, by rw [idx_cellOf]; exact x.2, ?_⟩
+    exact (reach_cast _ _ _ x.2 rfl (idx_cellOf w x.1)).2 hx
+  · intro a b _ _ hab
+    exact Fin.ext (cellOf_inj hab)
+  · rintro q ⟨hq, hs⟩
+    exact ⟨⟨_, idx_lt GL hq⟩, (canon_same_idx GL hp hq).1 hs, cellOf_idx hq.2⟩
+
+/-- The blocks of the cut division are orthogonally connected. -/
+theorem canon_conn (GL : GridLike h w G) (hbd : BdIs G bd s) (p : Nat × Nat) :
+    (cellGraph.induce ((canon GL bd).block p)).Preconnected := by
+  rintro ⟨a, ha, hsa⟩ ⟨b, hb, hsb⟩
+  have hab : (cutGraph G bd).Reachable ⟨_, idx_lt GL ha⟩ ⟨_, idx_lt GL hb⟩ :=
+    (canon_same_idx GL ha hb).1 ((canon GL bd).trans _ _ _ ((canon GL bd).symm _ _ hsa) hsb)
+  have hu : cellOf w (a.1 * w + a.2) ∈ (canon GL bd).block p := by rw [cellOf_idx ha.2]; exact ⟨ha, hsa⟩
+  obtain ⟨hv, r⟩ := reach_map_induce (G' := cellGraph) (fun x : Fin G.n => cellOf w x.1) ((canon GL bd).block p)
+    (fun x y hxy => ((cut_adj GL hbd x y).1 hxy).1)
+    (fun x y hxy hx => ⟨onBoard_fin GL y, (canon GL bd).trans _ _ _ hx.2
+      ((canon_same_fin GL x y).2 (SimpleGraph.Adj.reachable hxy))⟩) hab hu
+  have ea : (⟨cellOf w (a.1 * w + a.2), hu⟩ : ↥((canon GL bd).block p)) = ⟨a, ha, hsa⟩ :=
+    Subtype.ext (cellOf_idx ha.2)
+  have eb : (⟨cellOf w (b.1 * w + b.2), hv⟩ : ↥((canon GL bd).block p)) = ⟨b, hb, hsb⟩ :=
+    Subtype.ext (cellOf_idx hb.2)
+  rw [← ea, ← eb]
+  exact r
+
+/-- Neighbouring cells with equal numbers are in the same block of the cut division. -/
+theorem canon_same_of_adj (GL : GridLike h w G) (hbd : BdIs G bd s) {p q : Nat × Nat}
+    (hp : OnBoard h w p) (hq : OnBoard h w q) (hadj : cellGraph.Adj p q)
+    (hs : s (p.1 * w + p.2) = s (q.1 * w + q.2)) : (canon GL bd).same p q := by
+  rw [canon_same_idx GL hp hq]
+  apply SimpleGraph.Adj.reachable
+  rw [cut_adj GL hbd]
+  refine ⟨?_, hs⟩
+  show cellGraph.Adj (cellOf w (p.1 * w + p.2)) (cellOf w (q.1 * w + q.2))
+  rw [cellOf_idx hp.2, cellOf_idx hq.2]; exact hadj
+
+/-- A cell colouring that changes exactly across the borders is constant on the blocks of the cut division. -/
+theorem canon_colour_const (GL : GridLike h w G) (hbd : BdIs G bd s) (c : Nat → Bool)
+    (hc : ∀ u v, u < G.n → v < G.n → cellGraph.Adj (cellOf w u) (cellOf w v) → (s u ≠ s v ↔ c u ≠ c v))
+    {p q : Nat × Nat} (hs : (canon GL bd).same p q) : c (p.1 * w + p.2) = c (q.1 * w + q.2) := by
+  obtain ⟨_, _, hu, hv, r⟩ := hs
+  refine reach_rel (F := cutGraph G bd) (fun x y : Fin G.n => c x.1 = c y.1) (fun _ => rfl)
+    (fun _ _ _ h1 h2 => h1.trans h2) ?_ r
+  intro x y hxy
+  obtain ⟨hadj, hsxy⟩ := (cut_adj GL hbd x y).1 hxy
+  by_contra hne
+  exact (hc x.1 y.1 x.2 y.2 hadj).2 hne hsxy
+
+/-! ### from a division to the cut graph -/
+
+theorem block_eq_of_same (D : Division h w) {a b : Nat × Nat} (hab : D.same a b) : D.block a = D.block b := by
+  ext q
+  exact ⟨fun ⟨hq, h1⟩ => ⟨hq, D.trans _ _ _ (D.symm _ _ hab) h1⟩, fun ⟨hq, h1⟩ => ⟨hq, D.trans _ _ _ hab h1⟩⟩
+
+theorem size_eq_of_same (D : Division h w) {a b : Nat × Nat} (hab : D.same a b) : D.size a = D.size b := by
+  unfold Division.size; rw [block_eq_of_same D hab]
+
+/-- What the rules say about a division `D` and the numbers `s`, without givens and colours. -/
+structure Obeys (h w : Nat) (D : Division h w) (s : Nat → Int) : Prop where
+  conn : ∀ p, OnBoard h w p → (cellGraph.induce (D.block p)).Preconnected
+  size : ∀ p, OnBoard h w p → s (p.1 * w + p.2) = (D.size p : Int)
+  dist : ∀ p q, OnBoard h w p → OnBoard h w q → cellGraph.Adj p q → ¬ D.same p q → D.size p ≠ D.size q
+
+variable {D : Division h w}
+
+theorem s_fin (GL : GridLike h w G) (hO : Obeys h w D s) (u : Fin G.n) : s u.1 = (D.size (cellOf w u.1) : Int) := by
+  have := hO.size _ (onBoard_fin GL u)
+  rwa [idx_cellOf] at this
+
+/-- Joined by non-border edges ⇒ same block. -/
+theorem same_of_reach (GL : GridLike h w G) (hbd : BdIs G bd s) (hO : Obeys h w D s) {u v : Fin G.n}
+    (r : (cutGraph G bd).Reachable u v) : D.same (cellOf w u.1) (cellOf w v.1) := by
+  refine reach_rel (F := cutGraph G bd) (fun x y : Fin G.n => D.same (cellOf w x.1) (cellOf w y.1))
+    (fun x => D.refl _ (onBoard_fin GL x)) (fun _ _ _ h1 h2 => D.trans _ _ _ h1 h2) ?_ r
+  intro x y hxy
+  obtain ⟨hadj, hsxy⟩ := (cut_adj GL hbd x y).1 hxy
+  by_contra hns
+  have := hO.dist _ _ (onBoard_fin GL x) (onBoard_fin GL y) hadj hns
+  rw [s_fin GL hO x, s_fin GL hO y] at hsxy
+  exact this (by exact_mod_cast hsxy)
+
+/-- Same block ⇒ joined by non-border edges. -/
+theorem reach_of_same (GL : GridLike h w G) (hbd : BdIs G bd s) (hO : Obeys h w D s) {p q : Nat × Nat}
+    (hp : OnBoard h w p) (hq : OnBoard h w q) (hs : D.same p q) :
+    (cutGraph G bd).Reachable ⟨_, idx_lt GL hp⟩ ⟨_, idx_lt GL hq⟩ := by
+  have r := hO.conn p hp ⟨p, hp, D.refl p hp⟩ ⟨q, hq, hs⟩
+  let f : cellGraph.induce (D.block p) →g cutGraph G bd :=
+    { toFun := fun x => ⟨x.1.1 * w + x.1.2, idx_lt GL x.2.1⟩
+      map_rel' := by
+        rintro ⟨a, ha, hsa⟩ ⟨b, hb, hsb⟩ hab
+        rw [cut_adj GL hbd]
+        refine ⟨?_, ?_⟩
+        · show cellGraph.Adj (cellOf w (a.1 * w + a.2)) (cellOf w (b.1 * w + b.2))
+          rw [cellOf_idx ha.2, cellOf_idx hb.2]; exact hab
+        · show s (a.1 * w + a.2) = s (b.1 * w + b.2)
+          rw [hO.size a ha, hO.size b hb,
+            size_eq_of_same D (D.trans _ _ _ (D.symm _ _ hsa) hsb)] }
+  exact r.map f
+
+/-- The rules imply `BordersOK` of the cut graph. -/
+theorem bordersOK_of_obeys (GL : GridLike h w G) (hbd : BdIs G bd s) (hO : Obeys h w D s) :
+    BordersOK G bd (fun v => some (s v)) := by
+  constructor
+  · intro k u v hk hj hu hv r
+    have hsame := same_of_reach GL hbd hO r
+    have hne := (hbd k u v hj).1 hk
+    apply hne
+    have e1 := s_fin GL hO ⟨u, hu⟩
+    have e2 := s_fin GL hO ⟨v, hv⟩
+    simp only at e1 e2
+    rw [e1, e2, size_eq_of_same D hsame]
+  · intro v s' hv hs'
+    simp only [Option.some.injEq] at hs'
+    rw [← hs', s_fin GL hO ⟨v, hv⟩]
+    congr 1
+    unfold Division.size
+    apply Set.ncard_congr (fun x _ => cellOf w x.1)
+    · intro x hx
+      exact ⟨onBoard_fin GL x, same_of_reach GL hbd hO hx⟩
+    · intro a b _ _ hab
+      exact Fin.ext (cellOf_inj hab)
+    · rintro q ⟨hq, hs⟩
+      have hv' : OnBoard h w (cellOf w v) := onBoard_fin GL ⟨v, hv⟩
+      refine ⟨⟨_, idx_lt GL hq⟩, ?_, cellOf_idx hq.2⟩
+      have := reach_of_same GL hbd hO hv' hq hs
+      exact (reach_cast _ _ hv _ (idx_cellOf w v) rfl).1 this
+
+/-- A checkered colouring of the blocks changes exactly across the borders. -/
+theorem colour_of_obeys (GL : GridLike h w G) (hbd : BdIs G bd s) (hO : Obeys h w D s) (colour : Nat × Nat → Bool)
+    (h1 : ∀ p q, OnBoard h w p → OnBoard h w q → D.same p q → colour p = colour q)
+    (h2 : ∀ p q, OnBoard h w p → OnBoard h w q → cellGraph.Adj p q → ¬ D.same p q → colour p ≠ colour q)
+    (u v : Nat) (hu : u < G.n) (hv : v < G.n) (hadj : cellGraph.Adj (cellOf w u) (cellOf w v)) :
+    s u ≠ s v ↔ colour (cellOf w u) ≠ colour (cellOf w v) := by
+  have bu := onBoard_fin GL ⟨u, hu⟩
+  have bv := onBoard_fin GL ⟨v, hv⟩
+  have e1 := s_fin GL hO ⟨u, hu⟩
+  have e2 := s_fin GL hO ⟨v, hv⟩
+  simp only at e1 e2 bu bv
+  constructor
+  · intro hne
+    apply h2 _ _ bu bv hadj
+    intro hsame
+    apply hne
+    rw [e1, e2, size_eq_of_same D hsame]
+  · intro hne hs
+    apply hne
+    apply h1 _ _ bu bv
+    have : (cutGraph G bd).Adj ⟨u, hu⟩ ⟨v, hv⟩ := (cut_adj GL hbd _ _).2 ⟨hadj, hs⟩
+    exact same_of_reach GL hbd hO (SimpleGraph.Adj.reachable this)
+
+/-! ### the equivalence -/
+
+/-- `BordersOK` of the cut graph (with the numbers themselves as demanded block sizes) is the division form
+of the rules; a colouring of the vertices that changes exactly across the borders is a checkered colouring. -/
+theorem bordersOK_iff (GL : GridLike h w G) (hbd : BdIs G bd s) (chk : Bool) :
+    (BordersOK G bd (fun v => some (s v)) ∧
+      (chk = true → ∃ c : Nat → Bool, ∀ u v, u < G.n → v < G.n → cellGraph.Adj (cellOf w u) (cellOf w v) →
+        (s u ≠ s v ↔ c u ≠ c v))) ↔
+    ∃ D : Division h w, Obeys h w D s ∧
+      (chk = true → ∃ colour : Nat × Nat → Bool,
+        (∀ p q, OnBoard h w p → OnBoard h w q → D.same p q → colour p = colour q) ∧
+        (∀ p q, OnBoard h w p → OnBoard h w q → cellGraph.Adj p q → ¬ D.same p q → colour p ≠ colour q)) := by
+  constructor
+  · rintro ⟨hB, hC⟩
+    have hsize : ∀ p, OnBoard h w p → s (p.1 * w + p.2) = ((canon GL bd).size p : Int) := by
+      intro p hp
+      rw [canon_size GL hp]
+      exact (hB.2 _ _ (idx_lt GL hp) rfl).symm
+    have hdist : ∀ p q, OnBoard h w p → OnBoard h w q → cellGraph.Adj p q → ¬ (canon GL bd).same p q →
+        s (p.1 * w + p.2) ≠ s (q.1 * w + q.2) :=
+      fun p q hp hq hadj hns hs => hns (canon_same_of_adj GL hbd hp hq hadj hs)
+    refine ⟨canon GL bd, ⟨fun p _ => canon_conn GL hbd p, hsize, ?_⟩, ?_⟩
+    · intro p q hp hq hadj hns hs
+      apply hdist p q hp hq hadj hns
+      rw [hsize p hp, hsize q hq, hs]
+    · intro hchk
+      obtain ⟨c, hc⟩ := hC hchk
+      refine ⟨fun p => c (p.1 * w + p.2), fun p q _ _ hs => canon_colour_const GL hbd c hc hs, ?_⟩
+      intro p q hp hq hadj hns
+      have := hc _ _ (idx_lt GL hp) (idx_lt GL hq) (by rw [cellOf_idx hp.2, cellOf_idx hq.2]; exact hadj)
+      exact this.1 (hdist p q hp hq hadj hns)
+  · rintro ⟨D, hO, hC⟩
+    refine ⟨bordersOK_of_obeys GL hbd hO, ?_⟩
+    intro hchk
+    obtain ⟨colour, h1, h2⟩ := hC hchk
+    exact ⟨fun u => colour (cellOf w u), colour_of_obeys GL hbd hO colour h1 h2⟩
+
+/-- Block sizes lie between 1 and the number of cells. -/
+theorem size_bounds {size : Nat → Option Int} (hB : BordersOK G bd size) {v : Nat} {x : Int} (hv : v < G.n)
+    (hs : size v = some x) : 1 ≤ x ∧ x ≤ (G.n : Int) := by
+  have h := hB.2 v x hv hs
+  have h1 : 0 < Set.ncard {y : Fin G.n | (cutGraph G bd).Reachable ⟨v, hv⟩ y} :=
+    (Set.ncard_pos).2 ⟨⟨v, hv⟩, SimpleGraph.Reachable.refl _⟩
+  have h2 : Set.ncard {y : Fin G.n | (cutGraph G bd).Reachable ⟨v, hv⟩ y} ≤ G.n := by
+    have := Set.ncard_le_card {y : Fin G.n | (cutGraph G bd).Reachable ⟨v, hv⟩ y}
+    rwa [Nat.card_fin] at this
+  omega
 
 end
 
